@@ -163,7 +163,9 @@ class C15(Property):
         nthreads = rng.choice([2, 2, 3])
         gran = "shared" if rng.random() < 0.5 else "line"
         x = rng.random()
-        if x < 0.45:
+        if gran == "shared" and x < 0.35:
+            strat = {"kind": "race", "p_set": rng.choice([0.3, 0.6]), "p_get": rng.choice([0.05, 0.2]), "p_line": rng.choice([0.01, 0.04])}
+        elif x < 0.45:
             strat = {"kind": "random", "p": rng.choice([0.05, 0.2, 0.5])}
         elif x < 0.8:
             strat = {"kind": "pct", "depth": rng.choice([1, 2, 3]), "horizon": rng.choice([100, 300, 900, 3000])}
@@ -211,6 +213,16 @@ class C15(Property):
         case["n_datasets"] = rng.choice([1, 1, 2])
 
     def _gen_eval(self, rng, case):
+        if rng.random() < 0.4:
+            # hot spot: every thread hammers ONE cached dataset with two alternating assignments (warm hits and misses of
+            # different keys interleave on the same cache object)
+            spec = {"nodes": [{"k": "opt", "key": "A", "id": "n0"}, {"k": "dataset", "name": "HOT", "args": {"a": "n0"}, "id": "n1"},
+                              {"k": "dataset", "name": "OVERHOT", "args": {"x": "n1"}, "id": "n2"}], "roots": ["n1", "n2"]}
+            vals = rng.sample([0, 1, 2, "a", "b", True, None], 2)
+            case["spec"] = spec
+            case["ops_by_thread"] = {f"T{i}": [{"op": "evaluate", "node": rng.choice(["n1", "n1", "n2"]), "o": {"A": rng.choice(vals)}} for _ in range(rng.randint(2, 4))]
+                                     for i in range(case["nthreads"])}
+            return
         cfg = gen.swarm_cfg(rng, off=("shape_change", "nocache", "effects"))
         cfg["n_internal"] = rng.randint(2, 5)
         spec = gen.prune(gen.gen_spec(rng, cfg))
